@@ -19,9 +19,9 @@ from engines import recplay as R
 PROP = 'C04'
 
 IN_FAULTS = ['key_unbuildable', 'handler_raises', 'copy_fails', 'unserializable_value', 'discard_in_body',
-             'force_in_body', 'discard_before', 'force_before', 'fallback_raises']
+             'force_in_body', 'discard_before', 'force_before', 'fallback_raises', 'resolver_raises']
 OUT_FAULTS = ['handler_raises', 'discard_in_body', 'force_in_body', 'discard_before', 'force_before',
-              'unserializable_value']
+              'unserializable_value', 'unserializable_argument']
 
 META = {
     'engine': 'recplay',
@@ -76,6 +76,8 @@ def apply_fault(spec, io_steps, pos, kind_raw, run):
     st = io_steps[pos % len(io_steps)]
     kinds = IN_FAULTS if st[0] == 'in' else OUT_FAULTS
     kind = kinds[kind_raw % len(kinds)]
+    if kind in ('resolver_raises', 'unserializable_argument'):
+        return R.place_fault(spec, st, kind, run)
     if kind in ('discard_before', 'force_before'):
         lst, n = locate(spec.body, st)
         lst.insert(n, ['discard'] if kind == 'discard_before' else ['force'])
@@ -132,6 +134,8 @@ def _run_tape(tape):
     spec.op.params = sampling
     spec.op.params_style = 'kwargs' if (sampling and tape.draw(2)) else 'object'
     spec.op.extractor = extractor
+    if tape.draw(6) == 5:
+        spec.body.append(['rec', 'opaque', R.D.Unserializable(9)])      # explicitly recorded data that cannot be serialized
     if tape.draw(4) == 3:
         # the service itself fails: the operation (also after a discard) must raise exactly that exception
         spec.body.insert(tape.draw(len(spec.body) + 1), ['raise', tape.choice(R.D.EXC_CLASSES)])
@@ -168,6 +172,8 @@ def _run_tape(tape):
     if has_spawn:
         p = [0.0, 0.02, 0.1, 0.4][preempt_class]
         placements = {place_idx: place_to} if place_mode == 1 else None
+        # (opcode-granularity pre-emption was tried - Sim(opcodes=True) - and dropped: sys.settrace opcode events on
+        # several threads crash CPython 3.12.1 with a segmentation fault; races inside one source line stay invisible)
         sim = Sim(tape, run, preempt_p=0.0 if place_mode == 1 else p, prim_p=0.0 if place_mode == 1 else max(p, 0.1),
                   target_prefixes=[TARGET], placements=placements, max_steps=60000)
         svc_b = R.Service(spec, env_b, recorder, thread_factory=R.sim_thread_factory(sim))
